@@ -538,6 +538,15 @@ def t_negreg(g):
     g.emit(f"negpartner {ap} {val} {an}" + (f" rst {rv}" if resets else ""))
     g.define(ap, g.typ[val])
     pool = [ap] + [x for x in gouts[1:]]
+    if r.random() < 0.5:
+        # the enable output of the negative register consumed by ordinary logic / a pin (an external node's enable input
+        # would hang on it): it is the stall condition of the compensated pipeline register, constant '1' without a stall
+        ne = g.fresh("e")
+        g.emit(f"negen {ne} {an}" + (f" {en}" if en else ""))
+        g.define(ne, 'b')
+        pool.append(ne)
+        g.emit(f"out oe{ne} {ne}")          # observed directly: checks/C06.py demands exact equality on oe* pins
+        g.feat.add("negreg-enable-consumed-by-logic" + ("" if en else "-no-stall"))
     for i in range(r.randrange(1, 3)):
         pool.append(g.combine(pool))
     x = pool[-1]
@@ -587,6 +596,15 @@ def t_mem_region(g):
     m = g.fresh("M")
     g.emit(f"mem {m} {depth} {dbits}" + (" zero" if False else ""))
     order = r.choice(["rrw", "rwr", "wrr"])
+    if stall:
+        # The memory is state of the region that depends on the grouped inputs, which C06 excludes from its every-cycle
+        # claim.  Without a stall (and with the write enable's registers reset to 0) both variants perform the same
+        # writes one cycle apart and every output still agrees, so these designs are checked anyway.  With a stall and a
+        # read port ordered AFTER the write port (write-first read) they legitimately differ in stalled cycles: the
+        # reference drops the write->read bypass while stalled (write enable = we & stall), the retimed design has the
+        # bypassed word already in its output register.  Observed (400 seeds: rrw 33/33 equal, rwr 17/39 and wrr 17/31
+        # differ, always in a stalled cycle); outside the property, so only read-before-write orders are generated here.
+        order = "rrw"
     reads = []
     def wr():
         g.emit(f"if {gwe}"); g.emit(f"memwrite {m} {gwa} {gwd}"); g.emit("endif")
